@@ -283,23 +283,28 @@ func xmlAddKeyElements(s Entry, parent *etree.Element) {
 	// retrieve the parent schema, we need to extract the key names
 	// values are the tree level names
 	parentSchema, levelsUp := s.GetFirstAncestorWithSchema()
-	// from the parent we get the keys as slice
+	// from the parent we get the keys as slice: once in the order of the key levels of the tree, once as declared
 	schemaKeys := parentSchema.GetSchemaKeys()
+	levelKeys := keyLevelNames(schemaKeys)
 	var treeElem Entry = s
 	// the keys do match the levels up in the tree in reverse order
 	// hence we init i with levelUp and count down
 	for i := levelsUp - 1; i >= 0; i-- {
 		// skip if the element already exists
-		existingElem := parent.SelectElement(schemaKeys[i])
+		existingElem := parent.SelectElement(levelKeys[i])
 		if existingElem == nil {
 			// and finally we create the patheleme key attributes
-			existingElem = parent.CreateElement(schemaKeys[i])
+			existingElem = parent.CreateElement(levelKeys[i])
 			existingElem.SetText(treeElem.PathName())
 		}
-		// the keys lead the entry, in the order of the key statement (going from the last key to the first)
-		parent.RemoveChild(existingElem)
-		parent.InsertChildAt(0, existingElem)
 		// move one key level up, no matter if the key had to be added or did already exist
 		treeElem = treeElem.GetParent()
+	}
+	// the keys lead the entry, in the order of the key statement (going from the last key to the first)
+	for i := len(schemaKeys) - 1; i >= 0; i-- {
+		if existingElem := parent.SelectElement(schemaKeys[i]); existingElem != nil {
+			parent.RemoveChild(existingElem)
+			parent.InsertChildAt(0, existingElem)
+		}
 	}
 }
